@@ -13,13 +13,34 @@ def e2e(rng, set_version):
     case = {"vp": pr["vp"], "old": pr["old"], "new": pr["new"], "files": pr["files"], "file_patterns": pr["file_patterns"],
             "implicit_self": pr["implicit_self"], "key_alias": pr["key_alias"], "glob_self": pr["glob_self"],
             "set_version": set_version, "date": pr["date"], "flags": pr["flags"]}
+    respelled = None
+    if set_version == "respelled":
+        # --set-version with a spelling the pattern accepts but would not render itself (a leading zero on a numeric part)
+        import refimpl, random
+        respelled = refimpl.render_respelled(refimpl.tokenize(pr["vp"]), pr["new_state"], random.Random(rng.random()))
+        set_version = True
     with rwcommon.setup(pr) as p:
         before = p.snapshot()
         args = rwcommon.update_args(pr, set_version=set_version)
+        if respelled:
+            args = args[:-1] + [respelled]
         code, out, exc = sandbox.run_cli(args, p.dir)
+        announced = sandbox.announced_version()
         after = p.snapshot()
     case["args"] = args
     case["exit"] = code
+    case["announced"] = announced
+    if respelled:
+        # the gate may refuse the spelling (then nothing may change); if it accepts, everything must show what was ANNOUNCED
+        if code != 0:
+            return pr, case, None if after == before else "update --set-version %r failed (exit %s) but changed %r" % (respelled, code, rwcommon.diff_files(before, after))
+        import re, json
+        m = re.search(r'current_version = "((?:[^"\\\\]|\\\\.)*)"', after["bumpver.toml"].decode("utf-8"))
+        cfg_ver = json.loads('"' + m.group(1) + '"') if m else None
+        if announced is not None and cfg_ver != announced:
+            return pr, case, ("`bumpver update --set-version %s` announced New Version: %r but the config file's current_version (and every {version} occurrence) now shows %r"
+                              % (respelled, announced, cfg_ver))
+        return pr, case, None
     if code != 0:
         return pr, case, "update failed (exit %s %s) on a consistent project" % (code, exc)
     exp = rwcommon.expected_snapshot(pr, before)
@@ -40,7 +61,9 @@ def run(chk, driver, tier):
                          "lines, four line-ending regimes, noise lines; real `bumpver update` (flags or --set-version); non-trivial = distinct project")
     ops = []
     for i in range(n):
-        pr, case, verdict = e2e(rng, set_version=(i % 2 == 1))
+        pr, case, verdict = e2e(rng, set_version=("respelled" if i % 5 == 4 else (i % 2 == 1)))
+        if i % 5 == 4:
+            chk.count("set_version_respelled:%s" % ("none" if case["args"][-1] == pr["new"] else "exit%s" % case["exit"]))
         chk.count("files:%d" % len(pr["files"]))
         chk.count("shared_lines:%s" % any(len(ln[1]) > 1 for f in pr["layout"] for ln in f["lines"] if ln[0] == "occ"))
         chk.oracle_case(case, verdict)
